@@ -144,3 +144,84 @@ def _unwrap_parameters(h):
 for _n in ('__itruediv__', 'div_', 'true_divide_', 'divide_'):
     if _n in HANDLERS:
         HANDLERS[_n] = _unwrap_parameters(HANDLERS[_n])
+
+
+# ------------------------------------------------------------------ dead branches of torch.where / masked_fill
+# torch.where(cond, a, b) evaluates BOTH branches and back-propagates a zero gradient through the unselected one; an operation
+# of that branch whose local derivative is not finite there (x / 0, log 0, sqrt 0) turns 0 * inf into NaN, and the NaN reaches
+# every leaf the branch depends on - although the value is fine.  DAG.grad differentiates an `ite` by branches and cannot see
+# this.  On opt-in traces
+#  * every where / masked_fill is recorded element-wise in trace.where_records as (cond node, id if cond, id if not cond,
+#    result id), so that the check can state "the unselected branch is well-defined" as an obligation of its own;
+#  * a division by the LITERAL constant 0 (x - x collapses to the constant 0 in the hash-consed DAG: the flat segment of a
+#    piecewise-linear population function) does not end the run: it yields a fresh symbol `undef!k` with the value torch
+#    computes there (nan / +-inf), listed in trace.undefined.  Such a symbol is only legitimate inside an unselected branch.
+import math  # noqa: E402
+
+_generic_where = HANDLERS['where']
+_generic_masked_fill = HANDLERS['masked_fill']
+
+
+def prepare(t):
+    """to be called once on an opt-in trace, before the code under analysis runs"""
+    t.uf_stubs = True
+    t.where_records = []
+    t.undefined = {}
+    d = t.dag
+    orig_div = d.div
+
+    def div(a, b):
+        if b == 0:
+            va = d.vals[a]
+            val = math.nan if (va == 0 or math.isnan(va)) else math.copysign(math.inf, va)
+            name = f'undef!{len(t.undefined)}'
+            u = d._mk('var', (name,), val)
+            d.var_ids[name] = u
+            t.undefined[u] = a
+            return u
+        return orig_div(a, b)
+
+    d.div = div
+
+
+def _cond_nodes(c, shape):
+    from .tensor import SymBool
+
+    d = cur().dag
+    if isinstance(c, SymBool):
+        return c.ids.expand(shape).reshape(-1).tolist()
+    return [d.TRUE if x else d.FALSE for x in c.expand(shape).reshape(-1).tolist()]
+
+
+@handler('where')
+def h_where(func, args, kwargs):
+    r = _generic_where(func, args, kwargs)
+    if enabled() and len(args) == 3 and isinstance(r, SymTensor):
+        from .tensor import ids_of
+
+        t = cur()
+        shape = r._ids.shape
+        ai = ids_of(args[1]).expand(shape).reshape(-1).tolist()
+        bi = ids_of(args[2]).expand(shape).reshape(-1).tolist()
+        t.where_records.append(('where', list(zip(_cond_nodes(args[0], shape), ai, bi, r._ids.reshape(-1).tolist()))))
+    return r
+
+
+@handler('masked_fill', 'masked_fill_')
+def h_masked_fill(func, args, kwargs):
+    from .tensor import ids_of
+
+    before = ids_of(args[0]).clone() if enabled() and isinstance(args[0], torch.Tensor) else None
+    r = _generic_masked_fill(func, args, kwargs)
+    if before is not None and isinstance(r, SymTensor):
+        t = cur()
+        shape = r._ids.shape
+        mask = args[1]
+        mask = mask.v if hasattr(mask, 'v') and not isinstance(mask, torch.Tensor) else mask
+        d = t.dag
+        cn = [d.TRUE if x else d.FALSE for x in mask.expand(shape).reshape(-1).tolist()]
+        ri = r._ids.reshape(-1).tolist()
+        xi = before.expand(shape).reshape(-1).tolist()
+        # where the mask holds the result is the fill value and the original element is the unselected branch
+        t.where_records.append(('masked_fill', [(c, res, x, res) for c, x, res in zip(cn, xi, ri)]))
+    return r
